@@ -353,6 +353,11 @@ def check(ctx):
     with ctx.shared({'C06': 'C07.5'}):
         _alloc6, priv6, merged6 = c06._generators(ctx)
         c06._exactly_once(ctx, priv6, merged6)
+        # ... and the pending flag of an entry is `0 if app.server else 1`
+        # for every instance, whatever its priority: between allocations of
+        # equal rank and utilisation it is what puts a running instance
+        # ahead of a pending one
+        c06._layout(ctx, priv6, merged6)
     # shared with C06.5 / C03.4: an instance is listed by one allocation only
     # (Cell.add_app takes it out of the allocation it belonged to before it
     # joins the new one) - an instance listed twice has a stale second entry
